@@ -290,6 +290,12 @@ func (w *World) Prelude(body string) string {
 	}
 	b.WriteString("(declare-datatypes ((Slice 0)) (((mk_slice (s_arr Int) (s_off Int) (s_len Int) (s_cap Int)))))\n")
 	b.WriteString("(define-fun nil_slice () Slice (mk_slice 0 0 0 0))\n")
+	if strings.Contains(body, "(sidx ") {
+		// element position of index i of slice s in its backing array; a declared function
+		// (not a macro) so that it can serve as a quantifier trigger free of arithmetic
+		b.WriteString("(declare-fun sidx (Slice Int) Int)\n")
+		b.WriteString("(assert (forall ((s Slice) (i Int)) (! (= (sidx s i) (+ (s_off s) i)) :pattern ((sidx s i)))))\n")
+	}
 	b.WriteString("(declare-datatypes ((Iface 0)) (((mk_iface (i_typ Int) (i_val Int)))))\n")
 	b.WriteString("(define-fun nil_iface () Iface (mk_iface 0 0))\n")
 	b.WriteString("(define-fun tdiv ((a Int) (b Int)) Int (ite (>= a 0) (ite (> b 0) (div a b) (- (div a (- b)))) (ite (> b 0) (- (div (- a) b)) (div (- a) (- b)))))\n")
